@@ -824,6 +824,7 @@ META_EXTRA = 'PROXY (proxy assignments write through); STRBIT (string constructo
 META = (META[0] + " " + META_EXTRA, META[1])
 META = (META[0] + " DELEG also for basic_bitset's single-bit members (primitive of their own name); BITPRIM (bit primitives evaluated over the two-point bit domain); IT4i.", META[1])
 META = (META[0] + ' AGG (all / any / none over word classes zero / full / mixed).', META[1])
+META = (META[0] + " RETARG (helper type argument equals the conversion's return type).", META[1])
 
 
 def run(chk, tier):
@@ -839,6 +840,9 @@ def run(chk, tier):
     bitprim_rule(chk, db)
     agg_rule(chk, db)
     retarg_rule(chk, db)
+    from ..rules import iters as _ITG
+    _ITG.sibname_area(chk, db, ['_bitset/'])      # SIBNAME: to_ulong / to_ullong have one body
+    _ITG.copymod_area(chk, db, ['_bitset/'])      # COPYMOD: value-returning operators read the object they copy
     from ..rules import shift as _SH
     _SH.check(chk, db, ["_bit/", "_bitset/"], floor=20)      # SHIFT: shift counts stay below the promoted operand width
     strbit_rule(chk, db)
